@@ -20,22 +20,32 @@
                                                     131         if i == len(cache):
                                                     132             acquire()
                                                     133             try:
-                                                    134                 if self._cache_complete:
+                                                    134                 if self._cache_complete and cache is self._cache:
                                                     135                     break
                                                     136                 try:
                                                     137                     for j in range(10):
                                                     138                         cache.append(advance_iterator(gen))
                                                     139                 except StopIteration:
-                                                    140                     self._cache_gen = gen = None
-                                                    141                     self._cache_complete = True
+                                                                                gen = None
+                                                                                if cache is self._cache:
+                                                    140                             self._cache_gen = None
+                                                    141                             self._cache_complete = True
                                                     142                     break
+                                                                        except Exception:
+                                                                            if i == len(cache):
+                                                                                raise
                                                     143             finally:
                                                     144                 release()
                                                     145         yield cache[i]
                                                     146         i += 1
-                                                    147     while i < self._len:
+                                                    147     while i < len(cache):
                                                     148         yield cache[i]
                                                     149         i += 1
+
+  (Listing of the repaired file: pending_fixes/D-C11-genraise.diff + D-C10-stale.diff.  The unnumbered statements are
+  folded into the step before them: they touch only locals, the lock, or compare `cache is self._cache`, which is
+  constantly true for the iterators of THIS machine — one generation of the object; an iterator of an invalidated
+  generation runs on that generation's own machine and never writes the object's flags: Model/RRuleSet.lean.)
 
   One `step` = one line event of CPython's tracer: the thread executes the statement it is
   paused at and pauses at the next one.  `acquire()` (line 132) is enabled only when the lock is
@@ -206,9 +216,8 @@ def stepIter (sh : Shared) (t : Tid) (it : Iter) : Option (Shared × Iter) :=
               | none => crashWith it .IndexError)
   | .l146 => some (sh, { it with i := it.i + 1, pc := .l130 })
   | .l147 =>
-    some (sh, match sh.len with
-              | none => crashWith it .TypeError
-              | some n => if it.i < n then { it with pc := .l148 } else finish sh it)
+    -- `while i < len(cache):` (since the repair of D-C10-stale; `i < self._len` before: TypeError when `_len` is None)
+    some (sh, if it.i < sh.cache.length then { it with pc := .l148 } else finish sh it)
   | .l148 =>
     some (sh, match sh.cache[it.i]? with
               | some x => receive sh it x .l149
